@@ -167,6 +167,9 @@ def fromrepr_module(E):
     vals = []
     for a in E["absvals"]:
         vals += [a, a + 1, a - 1]
+    # a variant whose payload must never be built unless it is asked for (its Default panics): its own discriminant is not probed
+    skipvals = {E["absvals"][k] for k in E.get("skip_probe", []) if k < len(E["absvals"])}
+    vals = [x for x in vals if x not in skipvals]
     body.append("    repr_probes!(o, %d, %s, %s, ANCHOR, [%s] as [i128; %d], seed);" % (did, inst, R, ", ".join("%di128" % x for x in vals), len(vals)))
     if fieldless and E["variants"]:
         oks = []
